@@ -7,9 +7,13 @@ protocol machine's states for the regenerated protocol and the certificates
 has the Lean kernel check them together with the hand proofs.
 
 run: (i) the witness schedule of every finding — known, or fixed in the library — is replayed on
-the real code and the model (a fixed finding that comes back is a violation); (ii) random
+the real code and the model (a fixed finding that comes back is a violation; the witness of
+`concurrent-delete-keyerror`, two delete_one of one document, runs at the Collection level at
+every preemption point: no exception, and the two calls report one removed document between
+them); (ii) random
 schedules of 2-4 threads run on the REAL CollectionStore/RWLock under the deterministic scheduler
-(`sched.py`) and on the model (`c19replay`), outcomes compared; the property itself is also judged
+(`sched.py`) and on the model (`c19replay`), outcomes compared (exceptions per call, final dicts, locks free, and which
+`discard` calls answered that they removed a document); the property itself is also judged
 directly on the real outcome — TTL index creation and index drops (of TTL names too) concurrent
 with expiry passes are generated and judged like everything else; (iii) when the proof step is
 broken the explorer searches the model of the regenerated code for a bad schedule, which is
@@ -64,6 +68,9 @@ ASSUMPTIONS = [
     'theorems: proved by `decide` for every store method on its own (store_methods_conformant) and '
     'recomputed by the driver for every generated scenario (reported as `nonconformant`), not '
     'proved once for all call sequences',
+    '`Collection._delete` is modelled at the store level as its two store calls — a scan '
+    '(`documents`) and `discard(key)` — issued by one thread one after the other; that the key '
+    'it discards was seen by the scan is not a fact of the model (the theorems hold for any key)',
     'all TTL indexes are on one field with one expiry (the body of the expiry loop does not depend '
     'on which index it is at)',
     '`list(d.values())` is ONE action: a single C call, during which CPython (with the GIL) runs no '
@@ -85,14 +92,15 @@ ASSUMPTIONS = [
     '(the property speaks of reads, inserts, deletes, TTL expiry and index creation)',
 ]
 
-# classes of deviation listed in known_findings.json (status known) are counted, not reported
+# classes of deviation listed in known_findings.json WITH STATUS known are counted, not reported
+# (`concurrent-delete-keyerror` is a fixed record since a0040b0: an instance of it is a violation)
 KNOWN_CLASSES = ('concurrent-delete-keyerror',)
 
 EXTRA_TARGETS = []
 REGEN = {}
 
-METHODS_FROZEN = ['contains', 'getItem', 'setItem', 'delItem', 'len', 'documents', 'isEmpty',
-                  'expireDocuments', 'removeExpired']
+METHODS_FROZEN = ['contains', 'getItem', 'setItem', 'delItem', 'discard', 'len', 'documents',
+                  'isEmpty', 'expireDocuments', 'removeExpired']
 METHODS_INDEX = ['createIndex', 'createIndexTtl', 'dropIndex']
 BENIGN_KEYERROR = {'getItem', 'delItem', 'dropIndex'}
 
@@ -134,7 +142,7 @@ def gen_scenario(rng, nthreads=None):
             pool = METHODS_FROZEN + (METHODS_INDEX * 2 if with_index_ops else [])
             m = rng.choice(pool)
             key, thr = 0, 0
-            if m in ('contains', 'getItem', 'setItem', 'delItem'):
+            if m in ('contains', 'getItem', 'setItem', 'delItem', 'discard'):
                 key = rng.choice([0, 1, 2])
             elif m == 'documents':
                 thr = rng.choice([0, 0, 1, 2])
@@ -154,6 +162,7 @@ def gen_scenario(rng, nthreads=None):
         w = rng.choice([t for t in range(n) if t != r])
         progs[r][0] = ('documents', 0, rng.choice([0, 0, 0, 3]))
         progs[w][0] = rng.choice([('delItem', rng.choice([0, 1, 2]), 0),
+                                  ('discard', rng.choice([0, 1, 2]), 0),
                                   ('setItem', rng.choice([0, 1, 2]), 0),
                                   ('expireDocuments', 0, 0)])
     return {'docs0': docs0, 'idx0': idx0, 'ttl0': ttl0, 'expired': expired, 'progs': progs}
@@ -183,7 +192,7 @@ def mutates_ttl(sc):
     return any(c[0] in ('createIndexTtl', 'dropIndex') for p in sc['progs'] for c in p)
 
 
-WRITERS = ('setItem', 'delItem', 'expireDocuments', 'removeExpired')
+WRITERS = ('setItem', 'delItem', 'discard', 'expireDocuments', 'removeExpired')
 WALKERS = ('contains', 'getItem', 'len', 'documents', 'isEmpty', 'removeExpired', 'dropIndex')
 
 
@@ -213,12 +222,14 @@ def parse_model(line):
     d = {x[0]: [int(ch) for ch in x[1:]] for x in f[2]}
     return {'status': f[0][0], 'events': sorted(evs), 'docs': d['D'], 'idx': d['I'],
             'ttl': d['T'], 'overlap': f[3] == ['1'], 'faults': f[4],
-            'free': f[5][0] == 'free', 'excl': f[5][1] == 'excl', 'micro': [int(x) for x in f[6]]}
+            'free': f[5][0] == 'free', 'excl': f[5][1] == 'excl', 'micro': [int(x) for x in f[6]],
+            'removed': sorted([int(y) for y in x.split('.')] for x in (f[7] if len(f) > 7 else []))}
 
 
 def comparable(o):
     return {'status': o['status'], 'events': [list(e) for e in o['events']],
             'docs': o['docs'], 'idx': o['idx'], 'ttl': o['ttl'],
+            'removed': sorted(o.get('removed', [])),    # the discards that answered True
             'free': o['free'] if o['status'] == 'completed' else None, 'excl': o['excl']}
 
 
@@ -238,6 +249,9 @@ def defects(sc, o):
         if name == 'KeyError' and m in BENIGN_KEYERROR:
             continue
         out.append(('internal-error', '%s in thread %d call %d (%s)' % (name, t, ci, m)))
+    for t, ci, r in o.get('odd_answers', ()):
+        out.append(('discard-answer', 'discard in thread %d call %d answered %s, not whether it '
+                                      'removed a document' % (t, ci, r)))
     # a reader that iterates (`documents`, the expiry collection): judged on the log of the run
     for v in o.get('iter', ()):
         out.append(('writer-admitted-during-iteration' if v['clause'] == 'a'
@@ -276,6 +290,8 @@ SEARCH_SCENARIOS = [
         [[('setItem', 2, 0)], [('delItem', 0, 0)], [('len', 0, 0)]],
         [[('documents', 0, 0)], [('len', 0, 0), ('setItem', 2, 0)]],
         [[('documents', 0, 0)], [('contains', 0, 0), ('delItem', 0, 0)]],
+        [[('documents', 0, 0), ('discard', 1, 0)], [('documents', 0, 0), ('discard', 1, 0)]],
+        [[('discard', 0, 0)], [('discard', 0, 0)], [('expireDocuments', 0, 0)]],
         [[('expireDocuments', 0, 0)], [('len', 0, 0), ('setItem', 2, 0)]],
     ]] + [
     {'docs0': [0, 1], 'idx0': [], 'ttl0': [], 'expired': [0, 1],
